@@ -643,9 +643,12 @@ def rule_refspec_reads(run):
     f = rp.func("_visit_referenced_objects.<locals>.visit_single_object")
     calls = [c for c in calls_in(f.node) if dotted(c.func) == "operation" and len(c.args) == 2]
     n = 0
+    # the loop variable ranging over the reference spec (whatever it is called)
+    rv = [l.target.id for l in walk_local(f.node) if isinstance(l, ast.For) and isinstance(l.target, ast.Name) and src(l.iter).endswith("._ref_spec")]
+    rv = rv[0] if rv else "ref"
     for c in calls:
         a = dotted(c.args[0]) or ""
-        if a.startswith("ref."):
+        if a.startswith(rv + "."):
             n += 1
             run.ob(dotted(c.args[1]) == "AccessFlags.READ", "_visit_referenced_objects", file=rp.rel, line=c.lineno, detail=a, expected=f"operation({a}, AccessFlags.READ)", found=src(c))
             st = rp.parents.enclosing_stmt(c)
